@@ -395,7 +395,11 @@ class Indentation(afmformats.AFMForceDistance):
                               names=names,
                               lda=lda)
             rt = rater.rate(datasets=self)[0]
-            self._rating = (curhash, regressor, training_set, names, lda, rt)
+            # remember copies, such that in-place changes of the user's
+            # objects are detected in the comparison above
+            self._rating = (curhash, regressor,
+                            copy.deepcopy(training_set),
+                            copy.deepcopy(names), lda, rt)
         else:
             # Use cached rating
             rt = self._rating[-1]
